@@ -1,7 +1,7 @@
 (* C05 — deciding obligations. Statements only, closed by the lemmas proved in Circ/*Proofs.v. *)
 From Coq Require Import ZArith List Bool Permutation.
 From VF Require Import Circ.Moments Circ.Placement Circ.Insert Circ.BatchEdit Circ.History
-  Circ.MomentsProofs Circ.InsertProofs Circ.PlacementProofs Circ.CacheProofs Circ.BatchProofs Circ.HistoryProofs.
+  Circ.MomentsProofs Circ.InsertProofs Circ.PlacementProofs Circ.CacheProofs Circ.BatchProofs Circ.OrderProofs Circ.HistoryProofs.
 Import ListNotations.
 Open Scope Z_scope.
 
@@ -28,6 +28,53 @@ Theorem C05_no_loss_constructor : forall its s c' z,
   construct its s = (c', inl z) -> Permutation (uids (moms c')) (map uid (items_ops its)).
 Proof. exact construct_no_loss. Qed.
 Print Assumptions C05_no_loss_constructor.
+
+(* D2, the other mutators (counts of every uid u; icnt = occurrences among the given items) *)
+Theorem C05_no_loss_other_mutators : forall u c,
+  (forall its c' z, add c its = (c', inl z) -> ccnt u (moms c') = (ccnt u (moms c) + icnt u its)%nat) /\
+  (forall its c' z, radd c its = (c', inl z) -> ccnt u (moms c') = (icnt u its + ccnt u (moms c))%nat) /\
+  (forall its s e c' z, insert_into_range c its s e = (c', inl z) -> ccnt u (moms c') = (ccnt u (moms c) + icnt u its)%nat) /\
+  (forall ins c' z, batch_insert c ins = (c', inl z) -> ccnt u (moms c') = (ccnt u (moms c) + icnt u (flat_map snd ins))%nat) /\
+  (forall n, ccnt u (moms (mul c n)) = (Z.to_nat n * ccnt u (moms c))%nat) /\
+  (forall n, ccnt u (moms (imul c n)) = (Z.to_nat n * ccnt u (moms c))%nat) /\
+  (forall c' z, inverse c = (c', inl z) -> ccnt (- u) (moms c') = ccnt u (moms c)) /\
+  (forall qubits idxs c' r, clear_touching c qubits idxs = (c', r) -> (ccnt u (moms c') <= ccnt u (moms c))%nat).
+Proof.
+  intros u c. repeat split.
+  - exact (add_cnt u c).
+  - exact (radd_cnt u c).
+  - exact (insert_into_range_cnt u c).
+  - exact (batch_insert_cnt u c).
+  - exact (mul_cnt u c).
+  - exact (imul_cnt u c).
+  - exact (inverse_cnt u c).
+  - exact (clear_touching_cnt u c).
+Qed.
+Print Assumptions C05_no_loss_other_mutators.
+
+Theorem C05_no_loss_item_edits : forall u c,
+  (forall i m c' z j old, setitem c i m = (c', inl z) -> py_index i (length (moms c)) = Some j -> nth_error (moms c) j = Some old ->
+     (ccnt u (moms c') + cnt u old = cnt u m + ccnt u (moms c))%nat) /\
+  (forall i c' z j old, delitem c i = (c', inl z) -> py_index i (length (moms c)) = Some j -> nth_error (moms c) j = Some old ->
+     (ccnt u (moms c') + cnt u old = ccnt u (moms c))%nat) /\
+  (forall a b ms c' z s e, setslice c a b ms = (c', inl z) -> slice_range a b (length (moms c)) = (s, e) ->
+     (ccnt u (moms c') + ccnt u (firstn (e - s) (skipn s (moms c))) = ccnt u ms + ccnt u (moms c))%nat).
+Proof.
+  intros u c. repeat split.
+  - exact (setitem_cnt u c).
+  - exact (delitem_cnt u c).
+  - exact (setslice_cnt u c).
+Qed.
+Print Assumptions C05_no_loss_item_edits.
+
+(* the batch_* edits are all-or-nothing, as their docstrings promise *)
+Theorem C05_batch_edits_atomic : forall c,
+  (forall rs c' e, batch_remove c rs = (c', inr e) -> c' = c) /\
+  (forall rs c' e, batch_replace c rs = (c', inr e) -> c' = c) /\
+  (forall rs c' e, batch_insert_into c rs = (c', inr e) -> c' = c) /\
+  (forall ins c' e, batch_insert c ins = (c', inr e) -> c' = c).
+Proof. exact batch_edits_atomic. Qed.
+Print Assumptions C05_batch_edits_atomic.
 
 (* D3 cache_refines: in every history without with_tags the placement cache, whenever present, equals
    the summary recomputed from the moments ... *)
@@ -64,6 +111,90 @@ Print Assumptions C05_append_last_with_tags_refuted.
 Theorem C05_summaries_valid : forall h, clean empty_circuit h -> sums_ok (run empty_circuit h).
 Proof. exact history_sums_ok. Qed.
 Print Assumptions C05_summaries_valid.
+
+(* D5 strategy_placement: closed forms for one operation / one Moment (k = the clamped index) *)
+Theorem C05_strategy_new : forall c i o s, is_new s = true ->
+  insert c i [IOp o] s =
+    (mkc (insert_at (clamp_index i (length (moms c))) [o] (moms c)) None no_sums,
+     inl (Z.of_nat (S (clamp_index i (length (moms c)))))).
+Proof. exact insert_single_new. Qed.
+Print Assumptions C05_strategy_new.
+
+Theorem C05_strategy_inline : forall c i o,
+  let k := clamp_index i (length (moms c)) in
+  insert c i [IOp o] INLINE =
+    match k with
+    | S k' =>
+        match nth_error (moms c) k' with
+        | Some m => if blocks m o
+                    then (mkc (insert_at k [o] (moms c)) None no_sums, inl (Z.of_nat (S k)))
+                    else (mkc (replace_nth k' (m ++ [o]) (moms c)) None no_sums, inl (Z.of_nat k))
+        | None => (mkc (insert_at k [o] (moms c)) None no_sums, inl (Z.of_nat (S k)))
+        end
+    | O => (mkc (insert_at O [o] (moms c)) None no_sums, inl 1)
+    end.
+Proof. exact insert_single_inline. Qed.
+Print Assumptions C05_strategy_inline.
+
+(* the two scans return what the strategy texts say: just after the last / just before the first
+   moment holding an operation that conflicts (shared qubit, key-key, key-control) *)
+Theorem C05_earliest_scan : forall ms o k, (k <= length ms)%nat ->
+  let p := earliest_available_moment ms o k in
+  (p <= k)%nat /\ (forall j, (p <= j < k)%nat -> free_at ms o j) /\ (p = O \/ blocked_at ms o (Nat.pred p)).
+Proof. exact eam_spec. Qed.
+Print Assumptions C05_earliest_scan.
+
+Theorem C05_latest_scan : forall ms o k, (k < length ms)%nat ->
+  let p := latest_available_moment ms o k in
+  Z.of_nat k - 1 <= p < Z.of_nat (length ms) /\
+  (forall j, (k <= j)%nat -> Z.of_nat j <= p -> free_at ms o j) /\
+  (p = Z.of_nat (length ms) - 1 \/ blocked_at ms o (Z.to_nat (p + 1))).
+Proof. exact lam_spec. Qed.
+Print Assumptions C05_latest_scan.
+
+Theorem C05_conflict_rule : forall m o ms i,
+  (blocks m o = true <-> exists x, In x m /\ conflicts x o = true) /\
+  can_add_op_at ms i o = match nth_error ms i with None => true | Some m => negb (blocks m o) end.
+Proof. intros m o ms i. split; [apply blocks_spec|apply can_add_spec]. Qed.
+Print Assumptions C05_conflict_rule.
+
+(* D4 order_preserved, one inserted operation, any of the five strategies, no live cache: the call
+   succeeds, existing operations stay in place (up to one new moment) and the operation either gets a
+   new moment at the insertion point or joins the end of a moment p such that no moment between p and
+   the insertion point (p included) holds an operation that conflicts with it *)
+Theorem C05_order_preserved_single : forall c i o s, cache c = None ->
+  exists c' z, insert c i [IOp o] s = (c', inl z) /\ lands (moms c) (moms c') o (clamp_index i (length (moms c))).
+Proof. exact insert_single_lands. Qed.
+Print Assumptions C05_order_preserved_single.
+
+(* ... and the cached EARLIEST append lands the same way at the end *)
+Theorem C05_order_preserved_cached_append : forall pc ms o idx pc',
+  cache_matches pc ms -> cache_append pc (IOp o) = (idx, pc') ->
+  exists ms', place ms idx (IOp o) = inl ms' /\ lands ms ms' o (length ms).
+Proof. exact cached_append_lands. Qed.
+Print Assumptions C05_order_preserved_cached_append.
+
+(* the order clause is refuted for three calls (genuine defects of /repo, known findings) *)
+Theorem C05_concat_ragged_order_refuted :
+  exists c others c', Forall wf (moms c :: others) /\ concat_ragged c others LEFT = (c', inl 0) /\
+    conflicts (wM 2 0 0) (wC 3 1 0) = true /\
+    uid_moms (moms c) = [[1]; [2]] /\ uid_moms (moms c') = [[1; 3]; [2]].
+Proof. exact concat_ragged_order_refuted. Qed.
+Print Assumptions C05_concat_ragged_order_refuted.
+
+Theorem C05_batch_insert_order_refuted :
+  exists c ins c', batch_insert c ins = (c', inl 0) /\
+    ins = [(0, [IOp (wX 4 1)]); (2, [IOp (wX 5 2)])] /\ conflicts (wX 3 2) (wX 5 2) = true /\
+    uid_moms (moms c) = [[1]; [2]; [3]] /\ uid_moms (moms c') = [[1; 4]; [2]; [3]; [5]].
+Proof. exact batch_insert_order_refuted. Qed.
+Print Assumptions C05_batch_insert_order_refuted.
+
+Theorem C05_insert_at_frontier_order_refuted :
+  exists its c' f, insert_at_frontier empty_circuit its 0 [] = (c', inl f) /\
+    its = [IOp (wX 1 3); IOp (wM 2 3 0); IOp (wM 3 2 0)] /\ conflicts (wM 2 3 0) (wM 3 2 0) = true /\
+    uid_moms (moms c') = [[1; 3]; [2]].
+Proof. exact insert_at_frontier_order_refuted. Qed.
+Print Assumptions C05_insert_at_frontier_order_refuted.
 
 (* non-vacuity of the hypotheses *)
 Example C05_hypotheses_example :
